@@ -255,6 +255,10 @@ def check(ctx):
     for d in D.get_drivers(repo):
         if d.kind == 'unpack':
             D.check_innermost(ctx, 'R14-entry-offset', d)
+    # relative positioning is computed from the reference point (innermost-pkt-pos / cursor),
+    # never from the absolute offset alone (C10 rules b, c on Move)
+    from .c10 import check_move
+    check_move(ctx)
     # list the absolute constructs (not flagged)
     mv = repo.cls('Move').methods.get('unpack')
     if mv is not None:
